@@ -4,8 +4,8 @@ import SdnsVerif.Gen.C03
 /-!
 # C03 — a cached response only answers the exact question and audience it was stored for
 
-Property theorems only (helper lemmas live in `Lemmas/CacheKey.lean`).  Every
-theorem quantifies over an ARBITRARY hash `H : Bytes → UInt64` and an ARBITRARY
+Property theorems only (helper lemmas live in `Lemmas/CacheKey.lean`).  Each of
+them quantifies over an ARBITRARY hash `H : Bytes → UInt64` and an ARBITRARY
 store: whatever sequence of stores, refreshes, purges and evictions produced the
 store, and whatever two preimages collide under `H`, the statement holds.
 -/
